@@ -32,7 +32,7 @@ SEL3\tequ 3
     for n in range(2, 6) for nm, op in (("tb", "ifb"), ("tn", "ifnb")))
 HEADER_LINES = HEADER.count("\n")
 
-TRUE_EXPR = ["1", "7", "T1", "2>1", "F0==0", "-1", "T1+T1", "DEFD"]
+TRUE_EXPR = ["1", "7", "T1", "2>1", "F0==0", "-1", "T1+T1", "DEFD", "256", "512", "65536", "T1<<8", "-256", "DEFD<<16"]
 FALSE_EXPR = ["0", "F0", "1>2", "T1-1", "T1==F0", "F0*5"]
 
 # selector values: (token, asm spellings)
